@@ -684,8 +684,25 @@ class Oracles:
         self.violate("C20", "invalid-accepted:" + inv["kind"], self.nrec[w].type if w in self.nrec else self.erec[w].type,
                      f"invalid configuration ({inv['kind']} at {w}) was simulated without an error; {moved} item movement(s) on that component")
 
+    def judge_bad_index(self):
+        run, bi = self.run, self.meta["bad_index"]
+        vs = run.vsrc.get((bi["node"], "policy_" + bi["side"]))
+        if vs is None or len(vs.calls) <= bi["position"]:
+            self.probe("c15_bad_index_not_reached")
+            return
+        bad = vs.calls[bi["position"]][2]
+        if run.crash is not None and run.crash[0] in ("AssertionError", "IndexError", "ValueError"):
+            self.probe("c15_bad_index_rejected")
+            return
+        self.violate("C15", "out-of-range-accepted", self.nlabel(bi["node"]) + "," + bi["side"],
+                     f"{bi['node']}: its {bi['side']}-edge selector answered {bad} (out of range) and the run went on "
+                     f"({'crash ' + str(run.crash[0]) if run.crash else 'no error'})")
+
     def finish(self):
         run = self.run
+        if self.meta.get("bad_index"):
+            self.judge_bad_index()
+            return
         if self.meta.get("invalid"):
             self.judge_invalid()
             return
